@@ -122,9 +122,9 @@ def cloopFold (run : St → Res) (ls : CLoopSpec) : List Int → Nat → St → 
   | [], _, s => s
   | v :: rest, n, s =>
     let s1 : St := { s with c := s.c.setStatic ls.cnt (.int v) }
-    let rs := sepWrite n ls.sep s1
-    let rb0 := run { rs.st with c := { rs.st.c with chQB := true } }
-    let sb : St := { rb0.st with c := { rb0.st.c with chQB := rs.st.c.chQB } }
+    let rs := clrErrIf (n > 0 && !ls.sep.isEmpty) (sepWrite n ls.sep s1).st
+    let rb0 := run { rs with c := { rs.c with chQB := true } }
+    let sb : St := { rb0.st with c := { rb0.st.c with chQB := rs.c.chQB } }
     cloopFold run ls rest (n+1) { sb with c := sb.c.setStatic ls.cnt (.int (stepVal ls.cntOp v)) }
 
 /-- **Once per counter value.** With a plain body, a `++` / `--` step and succeeding separator writes, the
@@ -151,15 +151,14 @@ theorem cloop_once_per_value (run : St → Res) (hp : Plain run) (ls : CLoopSpec
       | false => simp [counterVals, hla]
       | true =>
         simp only [hsep, hstep, if_true]
-        have hio : ∀ rb0 : Res, rb0 = run { (sepWrite n ls.sep { s with c := s.c.setStatic ls.cnt (Val.int v) }).st with
-              c := { (sepWrite n ls.sep { s with c := s.c.setStatic ls.cnt (Val.int v) }).st.c with chQB := true } } →
-            iterAfterBody { rb0 with st := { rb0.st with c := { rb0.st.c with chQB := (sepWrite n ls.sep { s with c := s.c.setStatic ls.cnt (Val.int v) }).st.c.chQB } } } =
-              .next { rb0.st with c := { rb0.st.c with chQB := (sepWrite n ls.sep { s with c := s.c.setStatic ls.cnt (Val.int v) }).st.c.chQB } } := by
-          intro rb0 h0
+        have hio : ∀ (rs1 : St) (rb0 : Res), rb0 = run { rs1 with c := { rs1.c with chQB := true } } →
+            iterAfterBody { rb0 with st := { rb0.st with c := { rb0.st.c with chQB := rs1.c.chQB } } } =
+              .next { rb0.st with c := { rb0.st.c with chQB := rs1.c.chQB } } := by
+          intro rs1 rb0 h0
           apply C14.no_pending_continues
           · left; rw [h0]; exact (hp _).1
           · show rb0.st.c.brkD = 0; rw [h0]; exact (hp _).2
-        rw [hio _ rfl]
+        rw [hio _ _ rfl]
         simp only [counterVals, hla] at hlen ⊢
         simp only [List.length_cons] at hlen ⊢
         have ih' := fun s' => ih (stepVal ls.cntOp v) lim (n+1) s' hall (by omega)
